@@ -1291,8 +1291,12 @@ func ruleReflectKind(p *Program, r *Reporter) {
 
 // entryKinds: when v is a parameter, the kinds established at every call site.
 func entryKinds(p *Program, fn *ssa.Function, v ssa.Value) map[string]bool {
+	return entryKindsD(p, fn, v, 0)
+}
+
+func entryKindsD(p *Program, fn *ssa.Function, v ssa.Value, depth int) map[string]bool {
 	prm, ok := v.(*ssa.Parameter)
-	if !ok {
+	if !ok || depth > 2 {
 		return nil
 	}
 	idx := -1
@@ -1307,7 +1311,8 @@ func entryKinds(p *Program, fn *ssa.Function, v ssa.Value) map[string]bool {
 		for _, c := range callsTo(caller, fn) {
 			sites++
 			arg := c.Common().Args[idx]
-			ks := kindsAt(caller, arg, nil)[c.Block()]
+			// (the caller may itself have been handed the value with its kind established)
+			ks := kindsAt(caller, arg, entryKindsD(p, caller, arg, depth+1))[c.Block()]
 			if ks == nil {
 				return nil
 			}
